@@ -42,6 +42,9 @@ CONSTANTS N,            \* chain height bound
           AtomicRemove, \* TRUE: nothing is scheduled between the ack and the detector's range removal
           RemoveByHash, \* TRUE (a repair of F6 that TLC refutes, EVMSyncF6byhash.cfg): after the ack the detector removes exactly
                         \* the entries it compared (number and hash of its snapshot) - a block re-tracked with the same hash is lost
+          InconsOnFault,\* TRUE (the bridge processor before the repair of F13): a failing ProcessBlock answers "inconsistent state"
+                        \* without having halted; the driver then cancels the downloader and drops the block, but still takes
+                        \* what is buffered in its channel (EVMSyncF13probe.cfg: NoSkip fails)
           LockedRemove, \* TRUE (the repair of F6): the subscriber's tracked list stays locked from the moment the subscriber took the
                         \* notification until the range is removed, so AddBlockToTrack waits for the removal
           Contents,     \* subset of {0,1}: possible contents of a new block
@@ -220,10 +223,14 @@ DrvTrack ==
 (* ProcessBlock; an error is retried *)
 DrvProcess(fl) ==
   /\ Free /\ drv.pc = "process" /\ (fl => (MaxPFails = 99 \/ pfails < MaxPFails))
-  /\ IF fl THEN UNCHANGED <<drv, store>> /\ pfails' = IF MaxPFails # 99 THEN pfails + 1 ELSE pfails
+  /\ IF fl /\ InconsOnFault
+     THEN \* handleNewBlock: ErrInconsistentState -> cancel(), return (the block is gone; the channel keeps what it holds)
+          /\ drv' = IdleDrv /\ dl' = OffDl /\ UNCHANGED store
+          /\ pfails' = IF MaxPFails # 99 THEN pfails + 1 ELSE pfails
+     ELSE IF fl THEN UNCHANGED <<drv, store, dl>> /\ pfails' = IF MaxPFails # 99 THEN pfails + 1 ELSE pfails
      ELSE /\ store' = Append(store, [n |-> drv.cur.n, v |-> drv.cur.v, e |-> drv.cur.e])
-          /\ drv' = IdleDrv /\ pfails' = pfails
-  /\ UNCHANGED <<chunk, tag, tip, fin, nforks, fp, H, dl, ch, mem, db, rd, fails, restarts, lastReorg>>
+          /\ drv' = IdleDrv /\ pfails' = pfails /\ dl' = dl
+  /\ UNCHANGED <<chunk, tag, tip, fin, nforks, fp, H, ch, mem, db, rd, fails, restarts, lastReorg>>
   /\ Log("process", 0, <<>>, fl)
 
 (* the driver's select takes the detector's notification: cancel the downloader *)
